@@ -286,6 +286,7 @@ typedef struct {
   fifo_t output_fifo;
   half_iir_t halfer;
   stream_t current, fadeout; /* Current/fade-in, fadeout streams. */
+  float mult; /* This instance's gain; the (shared) coef. tables have none. */
 } rate_t;
 
 static float fade_coefs[(2 << FADE_LEN_BITS) + 1];
@@ -310,11 +311,12 @@ static void vr_init(rate_t * p, double default_io_ratio, int num_stages, double 
   }
   fifo_create(&p->output_fifo, sizeof(float));
   p->default_io_ratio = default_io_ratio;
+  p->mult = (float)mult;
   if (fade_coefs[0]==0) {
     for (i = 0; i < iAL(fade_coefs); ++i)
       fade_coefs[i] = (float)(.5 * (1 + cos(M_PI * i / (AL(fade_coefs) - 1))));
-    prepare_coefs(poly_fir_coefs_u, POLY_FIR_LEN_U, PHASES0_U, PHASES_U, coefs0_u, mult);
-    prepare_coefs(poly_fir_coefs_d, POLY_FIR_LEN_D, PHASES0_D, PHASES_D, coefs0_d, mult *.5);
+    prepare_coefs(poly_fir_coefs_u, POLY_FIR_LEN_U, PHASES0_U, PHASES_U, coefs0_u, 1.);
+    prepare_coefs(poly_fir_coefs_d, POLY_FIR_LEN_D, PHASES0_D, PHASES_D, coefs0_d, .5);
   }
   assert(fade_coefs[0]);
 }
@@ -561,6 +563,9 @@ static int vr_process(rate_t * p, int olen0)
       for (i = from; i >= to; --i, idone <<= 1)
         fifo_read(&p->stages[i].fifo, idone, NULL);
     }
+    if (p->mult != 1)
+      for (j = 0; j < odone0; ++j)
+        output[j] *= p->mult;
     fifo_trim_by(&p->output_fifo, olen0 - odone0);
     return odone0;
   }
